@@ -99,6 +99,14 @@ const char *c02_find(int cls, const char *w)
     return t;
 }
 int c02_contains(int cls, const char *w) { spif_obj_t probe = word(w); int r = SPIF_LIST_CONTAINS(L[cls][0], probe); SPIF_OBJ_DEL(probe); return r; }
+/* the probe is the very object stored at position k (-2 when there is none there): identity must not beat equality */
+int c02_index_stored(int cls, long k)
+{
+    spif_obj_t o = SPIF_LIST_GET(L[cls][0], (spif_listidx_t) k);
+    if (!o) return -2;
+    return (int) SPIF_LIST_INDEX(L[cls][0], o);
+}
+int c02_contains_stored(int cls, long k) { spif_obj_t o = SPIF_LIST_GET(L[cls][0], (spif_listidx_t) k); return o ? (int) SPIF_LIST_CONTAINS(L[cls][0], o) : -2; }
 int c02_index(int cls, const char *w) { spif_obj_t probe = word(w); int r = (int) SPIF_LIST_INDEX(L[cls][0], probe); SPIF_OBJ_DEL(probe); return r; }
 int c02_count(int cls, int which) { return (int) SPIF_LIST_COUNT(L[cls][which]); }
 int c02_reverse(int cls) { return SPIF_LIST_REVERSE(L[cls][0]); }
